@@ -309,7 +309,10 @@ let () =
                 show e ^ "\t" ^ string_of_int (int_of_nat k')
             | ["X"; fuel; k; p] ->
                 let (e, _) = translate (build (parse_sx p)) (nat_of_int (int_of_string k)) in
-                let r = (match ev (nat_of_int (int_of_string fuel)) [] e with
+                let r = (match scope0 [] e with
+                         | Some er -> show_err er
+                         | None ->
+                         match ev (nat_of_int (int_of_string fuel)) [] e with
                          | Ok (VCode c) -> show c
                          | Ok v -> "ERR not-code:" ^ show_val v
                          | Err er -> show_err er) in
